@@ -35,11 +35,11 @@ PART = {}
 LINES = ["greet bob", "greet", "num 5", "num abc", "num 1 2", "help", "help greet", "greet --help", "help num abc", "--version", "greet --zz", "nope",
          "greet bob --ansi", "help greet --ansi", "loose 1 2 3", "help loose", "-q greet bob", "num 7 -vvv",
          "remote -h", "help remote", "remote add o extra", "fail -vvv --ansi", "fail -vvv --no-ansi", "count", "greet --tag a -tb", "greet al --tag c",
-         "pinned a b", "pinned c", 'greet "bob al"', "greet bob al"]
+         "pinned a b", "pinned c", 'greet "bob al"', "greet bob al", "mark", "show", "show --ansi"]
 # quick: second and third run from this sub-menu (every kind of line once)
-SHORT = [0, 3, 4, 6, 7, 8, 10, 13, 14, 18, 20, 21, 22, 23, 24, 25, 26, 27, 28, 29]
-THIRD = [0, 4, 6, 14, 20, 22, 23, 25, 27, 29]      # quick: third run from the lines that observe carried state
-BOUNDS = {"quick": "3 runs on one application, first and second line from a 20-line sub-menu of the 30-line menu, third from 10 observing lines (quick) / the full menu (thorough); 4 table style kinds x 5 customisations x creation orders; double rendering of tables, help pages and error traces",
+SHORT = [0, 3, 4, 6, 7, 8, 10, 13, 14, 18, 20, 21, 22, 23, 24, 25, 26, 27, 28, 29, 30, 31, 32]
+THIRD = [0, 4, 6, 14, 20, 22, 23, 25, 27, 29, 31, 32]      # quick: third run from the lines that observe carried state
+BOUNDS = {"quick": "3 runs on one application, first and second line from a 23-line sub-menu of the 33-line menu, third from 12 observing lines (quick) / the full menu (thorough); 4 table style kinds x 5 customisations x creation orders; double rendering of tables, help pages and error traces",
           "thorough": "additionally 4 runs whose first line is an invalid value / failing help / unknown option / --ansi help"}
 OUTSIDE = ["sequences of 5-6 runs", "re-using one RawArgs OBJECT for two runs (each run gets a fresh StringArgs/ArgvArgs of its line): HelpResolver.resolve removes the leading 'help' token from the raw args it is given - observed, but the statement quantifies over command lines",
            "process-wide state outside clikit (pastel, crashtest)"]
@@ -72,6 +72,23 @@ class Counter(object):
         return 0 if self.n == 1 else 3
 
 
+def _mark(args, io):
+    from clikit.api.formatter.style import Style
+    io.output.formatter.add_style(Style("hl").fg("yellow").bold())
+    io.error_output.formatter.add_style(Style("info").fg("red"))
+    io.write_line("<hl>marked</hl> <info>i</info>")
+    io.error_line("<info>e</info>")
+    CALLS.append(("mark", {}, {}))
+    return 0
+
+
+def _show(args, io):
+    io.write_line("<hl>shown</hl> <info>i</info>")
+    io.error_line("<info>e</info> <hl>h</hl>")
+    CALLS.append(("show", {}, {}))
+    return 0
+
+
 def _failing(args, io):
     raise ValueError("handler failed")
 
@@ -91,6 +108,10 @@ def build():
     from clikit.args.default_args_parser import DefaultArgsParser
     pn.set_args_parser(DefaultArgsParser())
     pn.set_handler(CallbackHandler(_handler("pinned")))
+    mk = cfg.create_command("mark")                       # a handler that teaches ITS run's formatters a new style ...
+    mk.set_handler(CallbackHandler(_mark))
+    sh = cfg.create_command("show")                       # ... and one that uses the tag: unknown again in every other run
+    sh.set_handler(CallbackHandler(_show))
     c = cfg.create_command("count")                       # the handler is given as a factory (a class): every run gets a handler of its own
     c.set_handler(Counter)
     n = cfg.create_command("num")
@@ -149,6 +170,35 @@ def sequence(k1: int, k2: int, k3: int, k4: int) -> bool:
     n = len(LINES) - 1
     idx = [conc_int(k, 0, n) for k in (k1, k2, k3, k4)][: PART["n"]]
     return _sequence_case(idx)
+
+
+def _same_list_case(k1, k2):
+    """Two runs fed from ONE argv list object (a caller that keeps its list): each run sees the command line the list spells."""
+    from clikit.args.argv_args import ArgvArgs
+    lines = [["greet", "bob"], ["help", "greet"], ["num", "5"], ["greet", "--zz"]]
+    app = build()
+    outs = []
+    for k in (k1, k2):
+        lst = ["app"] + lines[k]
+        keep = list(lst)
+        res = []
+        for _ in range(2):
+            out, err = BufferedOutputStream(), BufferedOutputStream()
+            del CALLS[:]
+            status = app.run(ArgvArgs(lst), StringInputStream(""), out, err)
+            res.append((status, out.fetch(), err.fetch(), list(CALLS)))
+        if lst != keep or res[0] != res[1]:
+            return False
+        outs.append(res[0])
+    return True
+
+
+def same_list(k1: int, k2: int) -> bool:
+    """
+    pre: 0 <= k1 <= 3 and 0 <= k2 <= 3
+    post: _
+    """
+    return isolated(_same_list_case, conc_int(k1, 0, 3), conc_int(k2, 0, 3))
 
 
 def sequence_twin(k1: int, k2: int, k3: int, k4: int) -> bool:
@@ -299,6 +349,7 @@ def conditions(tier):
             conds.append({"name": "sequence[%r%s%s]" % (LINES[k1], "" if k2 is None else "," + repr(LINES[k2]), "" if half is None else ",second line from half %d of the sub-menu" % (half + 1)), "fn": sequence, "timeout": t, "part": {"k1": k1, "k2": k2, "n": nruns, "short": quick, "half": half},
                           "bounds": "runs: %r, then %s, each from %r, on one application vs fresh applications" % (LINES[k1], "2 more lines" if k2 is None else "%r and 2 more lines" % LINES[k2], LINES)})
     conds.append({"name": "sequence_twin", "fn": sequence_twin, "timeout": t, "expect": "refute", "part": {"k1": 8, "n": 2}, "bounds": "reachability twin"})
+    conds.append({"name": "same_list", "fn": same_list, "timeout": t, "bounds": "two command lines, each run twice from one argv list object the caller keeps: both runs of a line are identical and the list is untouched"})
     conds.append({"name": "styles", "fn": styles, "timeout": t, "bounds": "first style kind x second kind x 5 in-place customisations x third kind; border style factories"})
     conds.append({"name": "twice", "fn": twice, "timeout": t, "bounds": "tables (4 styles, wrapped cells), help pages (application and 4 commands), error traces (3 depths x 4 verbosities) rendered twice; a choice question presented twice (4 attempt limits x 3 scripts)"})
     return conds
